@@ -172,6 +172,10 @@ func ZZ_C39_WriteStep() {
 		rt.Assert(zzSame(after[len(abs):], orig[:k]), "write-appends-a-prefix-of-its-argument-in-order")
 	}
 	rt.Assert(n <= k, "write-never-reports-more-than-it-delivered")
+	if rt.Bound("EXACT") == 1 {
+		// probe tier only (NOTES.md, observation 1): the io.Writer reading of "the bytes the other end wrote"
+		rt.Assert(n == k, "write-reports-exactly-the-bytes-it-delivered")
+	}
 	switch {
 	case closed || (wclosed && nb > 0):
 		rt.Assert(n == 0 && err == io.ErrClosedPipe && k == 0, "write-on-closed-end-fails")
